@@ -395,7 +395,7 @@ func zzCount(n *Node) int {
 // on k.
 func C17Xml() {
 	N := zz.Param("N", 3)
-	xp := []string{"/R/T", "/R/T[x='1']", "/R/T[@a='1']", "/R/T[@a='1'][x='1']"}[zz.NondetChoice("xpath", 4)]
+	xp := []string{"/R/T", "/R/T[x='1']", "/R/T[@a='1']", "/R/T[@a='1'][x='1']", "//T[x='1']"}[zz.NondetChoice("xpath", 5)]
 	sepKind := zz.NondetChoice("sep", 3) // none, newline between records, text
 	sep := [][]byte{nil, []byte("\n"), []byte(" t ")}[sepKind]
 	doc := []byte("<R>")
@@ -405,7 +405,14 @@ func C17Xml() {
 		doc = append(doc, zzVal("av")...)
 		doc = append(doc, []byte("\"><x>")...)
 		doc = append(doc, zzVal("xv")...)
-		doc = append(doc, []byte("</x></T>")...)
+		doc = append(doc, []byte("</x>")...)
+		if zz.NondetBool("nestedT") {
+			// a record that contains another node on the target path
+			doc = append(doc, []byte("<T><x>")...)
+			doc = append(doc, zzVal("nv")...)
+			doc = append(doc, []byte("</x></T>")...)
+		}
+		doc = append(doc, []byte("</T>")...)
 		doc = append(doc, sep...)
 	}
 	doc = append(doc, []byte("</R>")...)
